@@ -92,6 +92,17 @@ def prob_vector(rng, n, pool):
         vals = [rng.choice([1 / 3, 1 / 6, 1 / 7, 2 / 7, 3 / 7, 1 / 9, 0.1, 0.3]) for _ in range(n)]
     elif pool == 'tiny':
         vals = [rng.choice([1e-150, 1e-160, 5e-324, 1e-300, 2e-308, 1e-200, 0.5, 1e-100]) for _ in range(n)]
+    elif pool == 'nearties':
+        # adjacent entries that differ only in the last bits / by ~1e-12 relative: different probabilities, hence different groups
+        import math
+        vals = []
+        while len(vals) < n:
+            x = rng.choice([0.3, 0.1, 0.2, 1 / 3, 0.25, 0.15, 0.05])
+            vals.append(x)
+            for _ in range(rng.randint(0, 2)):
+                if len(vals) < n:
+                    x = rng.choice([math.nextafter(x, 0.0), x * (1 - 1e-12), x * (1 - 3e-10), math.nextafter(math.nextafter(x, 0.0), 0.0)])
+                    vals.append(x)
     elif pool == 'equal':
         v = rng.choice([0.5, 0.25, 0.2, 0.1])
         vals = [v] * n
@@ -104,7 +115,7 @@ def prob_vector(rng, n, pool):
     vals.sort(reverse=True)
     return vals
 
-POOLS = ['dyadic', 'dyadic3', 'decimal', 'thirds', 'tiny', 'equal', 'counts', 'random']
+POOLS = ['dyadic', 'dyadic3', 'decimal', 'thirds', 'tiny', 'equal', 'counts', 'random', 'nearties']
 
 ALPHA_WORDS = {1: ['a', 'b', 'z', 'я', 'é'], 2: ['ab', 'zz', 'hi', 'да', 'ñu'], 3: ['cat', 'dog', 'abc', 'кот', 'été', 'fox'],
                4: ['pass', 'word', 'love', 'тест', 'ärger', 'blue'][:4] + ['grün'], 5: ['hello', 'world', 'admin', 'привет'[:5], 'señor']}
@@ -253,3 +264,22 @@ def gen_spec(rng, *, pool=None, n_base=None, max_len=4, labels=None, with_m=None
     spec = {'encoding': 'utf-8', 'uuid': str(uuid.UUID(int=rng.getrandbits(128))), 'base': base, 'prince': [],
             'terms': terms, 'omen': omen, 'pool': pool}
     return spec
+
+
+ODD_ALPHA = {1: ['ß', 'ŉ', 'ǰ', 'ﬁ', 'ΐ', 'ı', 'ſ', 'ǆ'], 2: ['ßa', 'aß', 'ŉo', 'ﬂy', 'ǆe'], 3: ['fuß', 'ßen', 'aŉb', 'ǰaz', 'ﬁre', 'ǆem'], 4: ['weiß', 'fußb', 'ßßßß', 'oﬃc', 'ßeta'],
+             5: ['straß', 'große', 'maßes', 'ǆungl']}
+
+def add_odd_alpha(rng, spec, k=3):
+    """Add alpha words with letters whose upper() is longer than one character, not reversible, or differs from title case (sharp s, n-apostrophe,
+    ligatures, dz-digraph ...) to existing probability groups: masks must still be applied position by position with str.upper()."""
+    n_added = 0
+    for lab, rows in list(spec['terms'].items()):
+        if lab[0] == 'A' and lab[1:].isdigit() and int(lab[1:]) in ODD_ALPHA:
+            n = int(lab[1:])
+            words = [w for w in ODD_ALPHA[n] if len(w) == n and w not in {v for v, _ in rows}]
+            rng.shuffle(words)
+            for w in words[:rng.randint(1, k)]:
+                gi = rng.randrange(len(rows))
+                rows.insert(gi + 1, [w, rows[gi][1]])
+                n_added += 1
+    return n_added
